@@ -115,7 +115,7 @@ class C05(Prop):
         "oracle binds lexically (environment extension), so capture shows as a different value",
         "Scatter and MarkovProduct binders are exercised by C10/C11 engines, not here",
     )
-    cases = {"quick": 3000, "thorough": 100000}
+    cases = {"quick": 4500, "thorough": 100000}
 
     def strategy(self, tier):
         d = 3 if tier == "quick" else 4
